@@ -175,9 +175,9 @@ func GenerateNasMessage() {
 										if minLength > 0 {
 											check = append(check, fmt.Sprintf("a.%s.Len < %d", ie.typeName, minLength))
 										}
-										typeMax := math.MaxInt8
+										typeMax := math.MaxUint8 - 1
 										if ie.lengthSize == 2 {
-											typeMax = math.MaxInt16
+											typeMax = math.MaxUint16 - 1
 										}
 										if maxLength <= typeMax {
 											check = append(check, fmt.Sprintf("a.%s.Len > %d", ie.typeName, maxLength))
